@@ -61,7 +61,7 @@ def all_path_sums(g, contrib, limit=400):
     val = {n.id: contrib(n) for n in g.nodes}
     sets = {n.id: {} for n in g.nodes}          # total -> next node on a witness path
     for n in g.nodes:
-        if not n.succ:
+        if not n.succ and n.kind != 'throw':      # a throwing path produces no event at all
             sets[n.id] = {val[n.id]: None}
     changed = True
     rounds = 0
